@@ -21,10 +21,11 @@ func VerifC11Hist() {
 	pinned := make([]*PoliciesData, nTxn)
 	pinAt := make([]int64, nTxn)
 	bases := []int64{0, 95 * sec / 10, 195 * sec / 10, 295 * sec / 10}
+	eps := verifInt("eps", 0, sec) // one symbolic offset shared by all steps of a history
 	for s := 0; s < S; s++ {
 		b := bases[verifChoose(fmt.Sprintf("adv%d", s), len(bases))]
 		if b > 0 {
-			verifAdvance(b + verifInt(fmt.Sprintf("eps%d", s), 0, sec))
+			verifAdvance(b + eps)
 			verifDrain()
 		}
 		ev := verifChoose(fmt.Sprintf("ev%d", s), nTxn+1)
